@@ -451,8 +451,8 @@ NamesNeverReused == [][NamesStep]_vars
 \* C10: whatever has reached a file and was not removed by retention is in an intact file - in every
 \* state, i.e. at every instant a crash could happen, and after crashes, faults and restarts
 FlushedRecoverable ==
-    \A r \in g.flushed \ g.removed :
-        \E n \in DOMAIN dir : dir[n].st \in {"plain", "gz"} /\ r \in RecSet(dir[n].recs)
+    (g.flushed \ g.removed) \subseteq
+        UNION {RecSet(dir[n].recs) : n \in {x \in DOMAIN dir : dir[x].st \in {"plain", "gz"}}}
 
 \* C11 (file half): when the process is aborted right after a fatal message was handled, nothing is left in
 \* QFile's buffer: every record handed to the sink, the fatal one included, has reached the file
